@@ -44,6 +44,16 @@ def specs(tier, seed):
                     "sess": {"qtype": common.QTYPES[i % 7], "lazy": 1, "fragsize": [100, None, 300][i % 3]},
                     "relay": {"qcase": "lower"}, "redeliver": red,
                     "pkts": common.packets(seed + 180 + i, tier), "dur_ms": 40000, "label": "redflip%d" % i})
+    # dense single-fragment upstream traffic (several packets per second, so upstream sequence numbers advance 4..7
+    # within the 15-query memory) with case-flipped re-deliveries from 5..14 queries back
+    for i in range(8 if tier == "quick" else 80):
+        pk = [[100 + 45 * j, "C0", "S", ["rand", "text"][j % 2], 20 + (j % 3) * 10] for j in range(16)]
+        red = {}
+        for n in range(6, 70):
+            red[n] = [[b, (n + b) % 2, 1, 0, 50 + 40 * k] for k, b in enumerate([5, 6, 8, 10, 12, 14]) if (n + b + i) % 3 == 0]
+        out.append({"seed": seed * 100000 + 1900 + i,
+                    "sess": {"qtype": common.QTYPES[i % 7], "lazy": i % 2, "fragsize": None},
+                    "relay": {"qcase": "lower"}, "redeliver": red, "pkts": pk, "dur_ms": 20000, "label": "reddense%d" % i})
     return common.fit_frag(out)
 
 
